@@ -413,7 +413,7 @@ def check_reuse(a, b, ctx):
     ts = rt.change_times(ib, chb)
     qpos = qpositions(chb)
     exp = [rt.offset_of(ib, chb, me, be, ts) for me, be in qpos]
-    for how in ("edit list in place", "assign new list"):
+    for how in ("edit list in place", "assign new list", "constructor, list in reverse order"):
         site = dict(reuse=how)
         ctx.state(("reuse", how, ka, str(ia), tuple(case["changes"]), kb, str(ib), tuple(case["changes2"])), nontrivial=True)
         ctx.case()
@@ -423,7 +423,11 @@ def check_reuse(a, b, ctx):
             qa = qpositions(cha)
             first = tm.offsets([Snap(me, be, cha[rt.active_index(cha, me, be)][1]) for me, be in qa])
             tm.snaps(list(first), sn)
-            if how == "edit list in place":
+            if how.startswith("constructor"):
+                # a tempo-change list has no order of its own: the map built directly from B's changes handed over in
+                # reverse order answers like the one built from them in time order
+                tm = TimingMap(bpm_changes_offset=list(fresh.bpm_changes_offset)[::-1])
+            elif how == "edit list in place":
                 tm.bpm_changes_offset[:] = list(fresh.bpm_changes_offset)
             else:
                 tm.bpm_changes_offset = list(fresh.bpm_changes_offset)
